@@ -11,6 +11,7 @@ mod sim;
 mod p_purge;
 mod p_apply;
 mod p_logcrash;
+mod p_resetrace;
 mod p_membership;
 mod p_c10;
 mod p_snapxfer;
@@ -67,6 +68,7 @@ fn dispatch(probe: &str, rt: &tokio::runtime::Runtime, case: Value) -> Value {
         "node_restart" => p_membership::node_restart(rt, case),
         "promote" => p_membership::promote(rt, case),
         "logcrash" => p_logcrash::run(rt, case),
+        "resetrace" => p_resetrace::run(rt, case),
         "commit_apply" => p_apply::run(rt, case),
         "purge_role" => p_purge::role(rt, case),
         "purge_route" => p_purge::route(rt, case),
